@@ -167,6 +167,11 @@ def b_int(ip, st, args, kwargs):
             return v
         if v.ty == 'bool':
             return mk(I(v), 'int')
+        if v.ty == 'ratio':
+            # int(a / b) truncates toward zero (b > 0): floor for a >= 0, -floor(-a / b) otherwise; z3's integer division by a positive
+            # constant is the floor
+            num, den = v.t
+            return mk(z3.If(num >= 0, num / den, -((-num) / den)), 'int')
         if v.ty in ('str', 'bytes'):
             return int_of_str(ip, st, v, v.ty)
     if v is None:
